@@ -1,12 +1,13 @@
 import re
 import sys
+import unicodedata
 import warnings
 from collections.abc import Mapping, Sequence
 from enum import Enum
 from functools import _CacheInfo, lru_cache
 from ipaddress import ip_address
 from typing import TYPE_CHECKING, Any, TypedDict, TypeVar, Union, overload
-from urllib.parse import SplitResult, parse_qsl, uses_relative
+from urllib.parse import SplitResult, parse_qsl, quote, uses_relative
 
 import idna
 from multidict import MultiDict, MultiDictProxy
@@ -1452,8 +1453,8 @@ class URL:
 
     def human_repr(self) -> str:
         """Return decoded human readable string for URL representation."""
-        user = human_quote(self.user, "#/:?@[]")
-        password = human_quote(self.password, "#/:?@[]")
+        user = _human_quote_userinfo(self.user)
+        password = _human_quote_userinfo(self.password)
         if (host := self.host) and ":" in host:
             host = f"[{host}]"
         path = human_quote(self.path, "#?")
@@ -1468,6 +1469,21 @@ class URL:
             assert fragment is not None
         netloc = make_netloc(user, password, host, self.explicit_port)
         return unsplit_result(self._scheme, netloc, path, query_string, fragment)
+
+
+def _human_quote_userinfo(s: Union[str, None]) -> Union[str, None]:
+    s = human_quote(s, "#/:?@[]")
+    if not s or s.isascii():
+        return s
+    # The parser rejects a netloc with non-ASCII characters that turn into
+    # a delimiter under NFKC normalization, they have to stay encoded.
+    return "".join(
+        quote(c)
+        if not c.isascii()
+        and any(d in unicodedata.normalize("NFKC", c) for d in "/?#@:")
+        else c
+        for c in s
+    )
 
 
 _DEFAULT_IDNA_SIZE = 256
